@@ -191,3 +191,16 @@ Proof.
   - apply view_valid_within_capacity. intros M' [<-|[]]. apply H. left; reflexivity.
   - apply IH. intros M' HM'. apply H. right; exact HM'.
 Qed.
+
+(* ---------- lobj_wfb decides lobj_wf ---------- *)
+Lemma kind_eqb_iff a b : kind_eqb a b = true <-> a = b.
+Proof. destruct a, b; cbn; split; intros H; try discriminate; reflexivity. Qed.
+
+Lemma lobj_wfb_iff {T} (o : @lobj T) : lobj_wfb o = true <-> lobj_wf o.
+Proof.
+  destruct o as [k l|k K t|k R pos maxi]; cbn [lobj_wfb lobj_wf].
+  - rewrite orb_true_iff, !kind_eqb_iff. tauto.
+  - rewrite andb_true_iff, !orb_true_iff, !kind_eqb_iff, forallb_forall, Forall_forall.
+    split; intros [A B]; (split; [tauto|]); intros r Hr; specialize (B r Hr); apply Nat.eqb_eq; exact B.
+  - rewrite !andb_true_iff, orb_true_iff, !kind_eqb_iff, Nat.eqb_eq, Nat.leb_le. tauto.
+Qed.
